@@ -6,13 +6,14 @@ import json
 import os
 import vlib
 
-GENS = {17: "MC_C05_enc_p17", 193: "MC_C05_enc_p193", 40961: "MC_C05_enc_p40961", 12289: "MC_C05_enc_p12289"}
+GENS = {17: "MC_C05_enc_p17", 193: "MC_C05_enc_p193", 40961: "MC_C05_enc_p40961", 12289: "MC_C05_enc_p12289", "big193": "MC_C05_encbig_p193"}
 RUNS = {17: "MC_C05_p17", 193: "MC_C05_q_p193", 40961: "MC_C05_q_p40961"}
 
 
 def scenarios(chk, p, kind="enc"):
     """TLC-generated scenario lines (circuit x measurement, or circuit x input vector)."""
     cfg = GENS[p] if kind == "enc" else RUNS[p]
+    p = 193 if p == "big193" else p
     fn = os.path.join(vlib.WORK, cfg + ".scn.ndjson")
     res = vlib.run_tlc("MC_C05", cfg, workers=16, timeout=1500, tag="scn" + cfg)
     vlib.tlc_ok(res, cfg)
@@ -32,8 +33,16 @@ def scenarios(chk, p, kind="enc"):
     return fn, len(lines)
 
 
+def thin(scn_file, every, limit, pred=None):
+    """Deterministic sub-lattice of a scenario file (every k-th line, optionally filtered)."""
+    lines = [l for l in open(scn_file).read().splitlines() if pred is None or pred(l)]
+    out = scn_file + ".thin%d" % every
+    vlib.write_lines(out, lines[::every][:limit])
+    return out
+
+
 def record_and_validate(chk, p, family, scn_file, max_units, label, nchunks=12):
-    trace = os.path.join(vlib.WORK, "p3_%s_p%d.ndjson" % (family, p))
+    trace = os.path.join(vlib.WORK, "p3_%s_%s_p%d.ndjson" % (family, label.replace("/", "_"), p))
     out = vlib.run_harness(["prio3", "record", family, str(chk.seed), trace, str(max_units)], stdin_path=scn_file)
     summ = out[-1]
     if summ["extra"].get("panics", 0):
